@@ -44,6 +44,75 @@ var models = map[string]Model{
 	"fmt.Sprintf": {Pure: true, Why: "fmt docs"},
 	"fmt.Sprint":  {Pure: true, Why: "fmt docs"},
 
+	// --- further standard-library functions that only read their arguments ---
+	"errors.Unwrap":                              {Pure: true, Why: "standard library: reads its arguments only"},
+	"errors.As":                                  {Pure: true, Why: "standard library: reads its arguments only"},
+	"errors.Join":                                {Pure: true, Why: "standard library: reads its arguments only"},
+	"bytes.Equal":                                {Pure: true, Why: "standard library: reads its arguments only"},
+	"bytes.Compare":                              {Pure: true, Why: "standard library: reads its arguments only"},
+	"bytes.HasPrefix":                            {Pure: true, Why: "standard library: reads its arguments only"},
+	"bytes.HasSuffix":                            {Pure: true, Why: "standard library: reads its arguments only"},
+	"bytes.Contains":                             {Pure: true, Why: "standard library: reads its arguments only"},
+	"bytes.Index":                                {Pure: true, Why: "standard library: reads its arguments only"},
+	"bytes.TrimSpace":                            {Pure: true, Why: "standard library: reads its arguments only"},
+	"strings.EqualFold":                          {Pure: true, Why: "standard library: reads its arguments only"},
+	"strings.Index":                              {Pure: true, Why: "standard library: reads its arguments only"},
+	"strings.LastIndex":                          {Pure: true, Why: "standard library: reads its arguments only"},
+	"strings.IndexByte":                          {Pure: true, Why: "standard library: reads its arguments only"},
+	"strings.ToLower":                            {Pure: true, Why: "standard library: reads its arguments only"},
+	"strings.ToUpper":                            {Pure: true, Why: "standard library: reads its arguments only"},
+	"strings.Trim":                               {Pure: true, Why: "standard library: reads its arguments only"},
+	"strings.TrimLeft":                           {Pure: true, Why: "standard library: reads its arguments only"},
+	"strings.TrimRight":                          {Pure: true, Why: "standard library: reads its arguments only"},
+	"strings.TrimPrefix":                         {Pure: true, Why: "standard library: reads its arguments only"},
+	"strings.TrimSuffix":                         {Pure: true, Why: "standard library: reads its arguments only"},
+	"strings.Fields":                             {Pure: true, Why: "standard library: reads its arguments only"},
+	"strings.Join":                               {Pure: true, Why: "standard library: reads its arguments only"},
+	"strings.Repeat":                             {Pure: true, Why: "standard library: reads its arguments only"},
+	"strings.Replace":                            {Pure: true, Why: "standard library: reads its arguments only"},
+	"strings.ReplaceAll":                         {Pure: true, Why: "standard library: reads its arguments only"},
+	"strings.Count":                              {Pure: true, Why: "standard library: reads its arguments only"},
+	"strings.Cut":                                {Pure: true, Why: "standard library: reads its arguments only"},
+	"strings.SplitN":                             {Pure: true, Why: "standard library: reads its arguments only"},
+	"strings.ContainsRune":                       {Pure: true, Why: "standard library: reads its arguments only"},
+	"strings.ContainsAny":                        {Pure: true, Why: "standard library: reads its arguments only"},
+	"strconv.ParseInt":                           {Pure: true, Why: "standard library: reads its arguments only"},
+	"strconv.ParseUint":                          {Pure: true, Why: "standard library: reads its arguments only"},
+	"strconv.FormatInt":                          {Pure: true, Why: "standard library: reads its arguments only"},
+	"strconv.FormatUint":                         {Pure: true, Why: "standard library: reads its arguments only"},
+	"strconv.Quote":                              {Pure: true, Why: "standard library: reads its arguments only"},
+	"strconv.ParseBool":                          {Pure: true, Why: "standard library: reads its arguments only"},
+	"unicode/utf8.ValidString":                   {Pure: true, Why: "standard library: reads its arguments only"},
+	"unicode/utf8.Valid":                         {Pure: true, Why: "standard library: reads its arguments only"},
+	"unicode/utf8.RuneCountInString":             {Pure: true, Why: "standard library: reads its arguments only"},
+	"unicode.IsDigit":                            {Pure: true, Why: "standard library: reads its arguments only"},
+	"unicode.IsLetter":                           {Pure: true, Why: "standard library: reads its arguments only"},
+	"unicode.IsSpace":                            {Pure: true, Why: "standard library: reads its arguments only"},
+	"reflect.DeepEqual":                          {Pure: true, Why: "standard library: reads its arguments only"},
+	"crypto/subtle.ConstantTimeCompare":          {Pure: true, Why: "standard library: reads its arguments only"},
+	"encoding/hex.EncodeToString":                {Pure: true, Why: "standard library: reads its arguments only"},
+	"encoding/hex.DecodeString":                  {Pure: true, Why: "standard library: reads its arguments only"},
+	"(*encoding/base64.Encoding).EncodeToString": {Pure: true, Why: "standard library: reads its arguments only"},
+	"(*encoding/base64.Encoding).DecodeString":   {Pure: true, Why: "standard library: reads its arguments only"},
+	"slices.Contains":                            {Pure: true, Why: "standard library: reads its arguments only"},
+	"slices.Index":                               {Pure: true, Why: "standard library: reads its arguments only"},
+	"slices.Equal":                               {Pure: true, Why: "standard library: reads its arguments only"},
+	"fmt.Sprintln":                               {Pure: true, Why: "standard library: reads its arguments only"},
+	"math.Min":                                   {Pure: true, Why: "standard library: reads its arguments only"},
+	"math.Max":                                   {Pure: true, Why: "standard library: reads its arguments only"},
+	"math/bits.Len":                              {Pure: true, Why: "standard library: reads its arguments only"},
+	"(reflect.Value).Len":                        {Pure: true, Why: "standard library: reads its arguments only"},
+	"(reflect.Value).Index":                      {Pure: true, Why: "standard library: reads its arguments only"},
+	"(reflect.Value).String":                     {Pure: true, Why: "standard library: reads its arguments only"},
+	"(reflect.Value).Int":                        {Pure: true, Why: "standard library: reads its arguments only"},
+	"(reflect.Value).Uint":                       {Pure: true, Why: "standard library: reads its arguments only"},
+	"(reflect.Value).Bool":                       {Pure: true, Why: "standard library: reads its arguments only"},
+	"(reflect.Value).CanAddr":                    {Pure: true, Why: "standard library: reads its arguments only"},
+	"(reflect.Value).CanSet":                     {Pure: true, Why: "standard library: reads its arguments only"},
+	"invoke reflect.Type.NumMethod":              {Pure: true, Why: "standard library: reads its arguments only"},
+	"invoke reflect.Type.PkgPath":                {Pure: true, Why: "standard library: reads its arguments only"},
+	"invoke reflect.Type.Implements":             {Pure: true, Why: "standard library: reads its arguments only"},
+	"invoke error.Error":                         {Pure: true, Why: "standard library: reads its arguments only"},
 	// --- strings / strconv / bytes ---
 	"strings.Split":               {Pure: true, NonNil: []bool{true}, Custom: modelSplit, Why: "strings docs: len(result) >= 1 for a non-empty separator"},
 	"strings.Contains":            {Pure: true, Why: "strings docs"},
@@ -80,7 +149,7 @@ var models = map[string]Model{
 	"(*encoding/json.Decoder).More":  {Pure: true, Why: "encoding/json"},
 
 	// --- reflect (pure with respect to everything but dest, which is written only through Addr().Interface() handed to a decoder) ---
-	"reflect.TypeOf": {Pure: true, Custom: modelTypeOf, Why: "reflect docs: non-nil for a non-nil interface value"},
+	"reflect.TypeOf":               {Pure: true, Custom: modelTypeOf, Why: "reflect docs: non-nil for a non-nil interface value"},
 	"reflect.ValueOf":              {Pure: true, Custom: modelValueOf, Why: "reflect docs"},
 	"(reflect.StructTag).Lookup":   {Pure: true, Why: "reflect docs"},
 	"(reflect.StructTag).Get":      {Pure: true, Why: "reflect docs"},
@@ -91,7 +160,7 @@ var models = map[string]Model{
 	"(reflect.Value).IsZero":       {Pure: true, Why: "reflect docs"},
 	"(reflect.Value).IsNil":        {Pure: true, Custom: modelIsNil, Why: "reflect docs: reports whether the pointer/interface the Value holds is nil"},
 	"(reflect.Value).IsValid":      {Pure: true, Why: "reflect docs"},
-	"(reflect.Value).Kind": {Pure: true, Custom: modelValueKind, Why: "reflect docs: the kind of the dynamic type held"},
+	"(reflect.Value).Kind":         {Pure: true, Custom: modelValueKind, Why: "reflect docs: the kind of the dynamic type held"},
 	"(reflect.Value).NumField":     {Pure: true, Why: "reflect docs"},
 	"(reflect.Value).Type":         {Pure: true, NonNil: []bool{true}, Why: "reflect docs"},
 	"invoke reflect.Type.Elem":     {Pure: true, NonNil: []bool{true}, Why: "reflect docs"},
